@@ -11,7 +11,7 @@ CONSTANTS K
 
 \* a  A  a1 (prefix + digit: sorts before "a:" as text, after "a" as name)  a:b  A-E-acute (ASCII capital before a
 \* non-ASCII capital)  Dz-titlecase  empty;  thorough adds b and E-acute
-Algs == {<<97>>, <<65>>, <<97,49>>, <<97,58,98>>, <<65,201>>, <<453>>, <<>>} \cup (IF K >= 3 THEN {<<98>>, <<201>>} ELSE {})
+Algs == {<<97>>, <<65>>, <<97,49>>, <<97,58,98>>, <<65,201>>, <<233,201>>, <<453>>, <<>>} \cup (IF K >= 3 THEN {<<98>>, <<201>>} ELSE {})
 Hexes == {<<>>, <<48,48>>, <<48,65>>, <<48,97>>, <<120,120>>, <<48>>}
 ByteSeqs == {<<>>, <<0>>, <<10, 255>>}
 Texts == {<<>>, <<97,58,48,48>>, <<66,58,48,65,44,97,58,102,70>>, <<97,58,48,48,44,65,58,49,49>>, <<122,122>>, <<97,58,98,58,48,48>>, <<58>>}
